@@ -24,6 +24,11 @@ CLAIMED = {
          "All sequences over {failure, success, ask, advance <timeout, >timeout, >probe window} up to length 6 (quick) / 8 (thorough) are run against the three real breakers (health, olla engine, unifier with several configurations) and compared, ask by ask, with a reference automaton written from the statement that yields the set of allowed answers; every sequence ends with a recovery suffix (works again => closes, count cleared, trips again at threshold); longer sequences are rapid-generated; G concurrent callers race on a timed-out breaker and admissions are counted against the stated limits.",
          "Time is simulated by rewinding stored timestamps through build-tag-guarded overlay hooks (exact for 'now - stored > timeout' code); where the statement is silent both answers are accepted; the concurrent part explores only the schedules the Go scheduler happens to produce.",
          "DESIGN.md §3 C08"),
+ "C09": ("exploration",
+         "complete enumeration of the routing decision table + rapid-generated spellings/routes/histories through the full stack; reference decision table as oracle",
+         "One production stack per (engine, strategy, fallback, refresh-on-miss). The table strategy x fallback x healthy-subset x listing-subset over 4 endpoints is enumerated completely (exact spelling, proxy route) and rapid adds endpoint counts, model spellings (case, :latest), provider and Anthropic routes, bodies above the 1 MiB inspection limit and discovery histories in which an endpoint dropped the model; the serving backend, the client status (served / 404 / 503 / fallback to the healthy set) and the X-Olla-Routing-Decision header are compared with a reference decision table written from the statement.",
+         "Service direction only for the exact lower-case spelling, safety direction for all; discovery strategy with fallback all and refresh off accepts service or honest rejection; listed known findings are tolerated by exact root-cause signature.",
+         "DESIGN.md §3 C09"),
  "C11": ("exploration",
          "enumeration of prefix x deployment tables + rapid-generated deployments through the full stack; typed recording backends; YAML-derived reference compatibility relation",
          "Every routing prefix declared by the shipped YAML profiles (read by the harness's own YAML reader) is exercised on both engines against deployments built from every shipped endpoint type plus auto and documented alias spellings, with health subsets: all size-1 and size-2 deployments are enumerated (quick: a third of the pair table per run), size-3 deployments and provider-native paths are rapid-generated; the backend that receives the request must have a type in the reference relation Compatible(prefix), offline endpoints receive nothing, and with no healthy compatible endpoint the client gets a non-2xx and no backend is contacted. Model listings under each prefix must only show models of healthy compatible endpoints.",
@@ -39,6 +44,11 @@ CLAIMED = {
          "Completions (text/tool segments, unicode, up to 256 KiB arguments, finish reasons, three usage placements) are rendered to OpenAI SSE with arbitrary delta splits and line endings and cut into arbitrary reader chunks; the bytes written by TransformStreamingResponse are parsed by an independent strict Anthropic event grammar (one message_start first, blocks opened/closed exactly once in order, typed deltas only while open, one message_delta, message_stop last), the content is reconstructed and compared (text, tool id/name/arguments byte-for-byte, stop_reason, usage) and compared with TransformResponse on the buffered form; noisy/hostile streams must terminate without panic.",
          "Tool-call fragments are contiguous per call (as real backends emit them) for the full oracle; arbitrary interleavings only for the no-crash/termination clause.",
          "DESIGN.md §3 C13"),
+ "C14": ("exploration",
+         "enumeration of endpoint-type pairs + rapid-generated deployments through the full stack; typed recording backends; YAML-derived native-support oracle",
+         "Deployments of 1..4 endpoints typed from the shipped profiles (native Anthropic support read from the YAML by the harness's own reader), each reachable or refusing, with passthrough enabled/disabled, stream on/off, two balancers and both engines: every type pair is enumerated, larger mixes are rapid-generated. Recording backends tell which path each endpoint saw and whether the body was byte-identical to the client's; a non-native endpoint never sees the Anthropic form, a request is never sent both ways, passthrough is used iff enabled and a reachable native endpoint exists, failover stays inside the native subset, and X-Olla-Mode and the /internal/stats/translators counters agree with what was observed.",
+         "Model routing is neutralised (model registered on every endpoint); no fallback from a failed passthrough subset to translation is required.",
+         "DESIGN.md §3 C14"),
  "C15": ("exploration",
          "rapid-generated raw header blocks through the full stack; received header block compared by an independent multiset oracle",
          "A raw TCP client writes generated header blocks (every sensitive and hop-by-hop name in random letter case, 0..3 occurrences, empty values; up to 40 arbitrary token-named headers with repeated names, obs-text and tabs; pre-existing Via / X-Forwarded-* / X-Real-IP on one or several lines) on proxy, provider, Anthropic passthrough and translated routes of both engines, with and without failover from a refusing endpoint; the raw backend's received header block must contain no sensitive or hop-by-hop header, every other client header with the same values in the same per-name order, nothing invented beyond the headers Olla/transport legitimately add, and every pre-existing forwarding value still in place before Olla's own element.",
